@@ -51,7 +51,7 @@ class C10(Check):
     ASSUMPTIONS = ['well-supported problems only (ill-posed fits are C09); x2 / 2-D fits excluded (deprecated by the code itself)',
                    'curves are compared at abscissae inside the returned knot range only',
                    'the documented procedure is cumulative: a point rejected in one pass is not re-admitted (inmask = previous mask)']
-    REQUIRED_COUNTERS = ('canary_sequences', 'fixed_point_optimality_checked', 'fixed_point_mask_checked', 'breakpoint_dropped_cases', 'permutations_checked', 'refits_observed', 'reference_loops_agreeing', 'maxiter0_cases',
+    REQUIRED_COUNTERS = ('one_sided_limit_exactly_zero', 'good_points_sorted_bad_points_out_of_order', 'canary_sequences', 'fixed_point_optimality_checked', 'fixed_point_mask_checked', 'breakpoint_dropped_cases', 'permutations_checked', 'refits_observed', 'reference_loops_agreeing', 'maxiter0_cases',
                          'nonpositive_weight_points', 'outliers_flagged', 'deletion_checks', 'invvar_none_cases', 'float32_cases')
     CASE_CPU_S = 120
 
@@ -147,6 +147,13 @@ class C10(Check):
         upper = rng.choice([5, 5, 3, 4, 8, rng.uniform(2, 8)])
         lower = upper if rng.random() < 0.6 else rng.choice([5, 3, 8, rng.uniform(2, 8)])
         maxiter = 0 if cls == 'maxiter0' else rng.choice([1, 2, 3, 10, 10, rng.randint(0, 10)])
+        if cls == 'random' and rng.random() < 0.08:
+            # a one-sided limit of exactly zero (envelope / continuum fitting): everything on that side of the curve is rejected
+            if rng.random() < 0.5:
+                lower = 0.0
+            else:
+                upper = 0.0
+            maxiter = rng.choice([1, 1, 2])
         if cls == 'gap':
             maxiter = rng.choice([5, 10, 10, 20])
         # the documented procedure has no absolute flux scale: a third of the cases are in other units (counts ... micro-flux),
@@ -159,7 +166,8 @@ class C10(Check):
         return {'kind': cls, 'x': x.astype(dt).astype('f8').tolist(), 'y': y.astype(dt).astype('f8').tolist(),
                 'iv': None if cls == 'invvar_none' else iv.astype(dt).astype('f8').tolist(), 'dtype': dt,
                 'nord': k, 'opt': opt, 'optval': val, 'upper': float(upper), 'lower': float(lower), 'maxiter': int(maxiter),
-                'outliers': sorted(int(j) for j in io), 'perm_seed': rng.getrandbits(32), 'sorted': rng.random() < 0.3}
+                'outliers': sorted(int(j) for j in io), 'perm_seed': rng.getrandbits(32), 'sorted': rng.random() < 0.3,
+                'good_sorted': rng.random() < 0.3}
 
     # ------------------------------------------------------------------ run
     def _call(self, x, y, iv, case):
@@ -213,6 +221,15 @@ class C10(Check):
             o = np.argsort(x, kind='stable')
             x, y = x[o], y[o]
             iv = None if iv is None else iv[o]
+        elif case.get('good_sorted') and iv is not None:
+            # the usable points in increasing order, the zero / negative weight points left wherever they were (junk abscissae
+            # at bad pixels, two segments joined with a masked overlap): still just another order of the same data
+            gi = np.nonzero(iv > 0)[0]
+            o = np.argsort(x[gi], kind='stable')
+            x[gi], y[gi], iv[gi] = x[gi][o], y[gi][o], iv[gi][o]
+            self._remap = np.arange(x.size)
+            self._remap[gi[o]] = gi          # where each original index went
+            out.count('good_points_sorted_bad_points_out_of_order', bool(np.any(np.diff(x) < 0)))
         n = x.size
         f32 = dt == 'f4'
         band = 2e-3 if f32 else 1e-6
@@ -225,6 +242,7 @@ class C10(Check):
         out.count('float32_cases', f32)
         out.count('invvar_none_cases', iv is None)
         out.count('maxiter0_cases', case['maxiter'] == 0)
+        out.count('one_sided_limit_exactly_zero', case['lower'] == 0 or case['upper'] == 0)
         out.expect(isinstance(m, np.ndarray) and m.dtype == bool and m.shape == x.shape, 'mask-shape', 'mask %r' % (getattr(m, 'shape', m),))
         if out.fails:
             return
@@ -286,6 +304,8 @@ class C10(Check):
                     inv = np.empty(n, dtype=int)
                     inv[np.argsort(np.array(case['x'], dtype=dt), kind='stable')] = np.arange(n)
                     o = inv[o]
+                elif case.get('good_sorted'):
+                    o = self._remap[o]
                 if bool(np.any(rmask[o])):
                     out.undecide()          # the documented procedure itself keeps it (leverage): not a "clear" outlier
                 else:
